@@ -110,7 +110,7 @@ pub fn tl(u: U, max_kfs: u8, t: Timing, back: bool, custom: bool) -> TlDesc {
     let n = byte(u) % (max_kfs + 1);
     let default_ez = ez(u, back, custom);
     let kfs = (0..n).map(|_| kf(u, back, custom)).collect();
-    TlDesc { timing: t, default_ez, kfs }.sanitize()
+    TlDesc { timing: t, default_ez, kfs, order: byte(u) % 4 }.sanitize()
 }
 pub fn timespec(u: U) -> TimeSpec {
     let k = |u: U| -> u32 {
@@ -164,7 +164,7 @@ pub fn anim_desc(u: U) -> AnimDesc {
             Some(vec![comp(u)])
         });
     }
-    AnimDesc { states, initial_state: byte(u) % 5, initial_values: vals(u) }
+    AnimDesc { states, initial_state: byte(u) % 5, initial_values: vals(u), builder_order: byte(u) % 8 }
 }
 pub fn step(u: U) -> Step {
     match byte(u) % 20 {
